@@ -194,6 +194,7 @@ pub mod vx_export {
         // the deepest matching node = anchor of the honest proof
         let honest = azks.get_non_membership_proof::<TC, _>(&db, q).await?;
         let deepest_len = honest.longest_prefix.label_len;
+        if std::env::var("VX_DEBUG").is_ok() { eprintln!("honest: lp_len={} sibs={} res={:?}", deepest_len, honest.longest_prefix_membership_proof.sibling_proofs.len(), verify_nonmembership_for_tests_only::<TC>(root_hash, &honest).is_ok()); }
         let mut res = vec![];
         let mut seen = std::collections::BTreeSet::new();
         for k in 0..=256u32 {
@@ -202,7 +203,9 @@ pub mod vx_export {
             if p.longest_prefix != cand || !seen.insert(k) { continue; }
             if k == 256 { continue; } // the leaf itself is not an anchor candidate with two children
             p.label = q;
-            let accepted = verify_nonmembership_for_tests_only::<TC>(root_hash, &p).is_ok();
+            let vr = verify_nonmembership_for_tests_only::<TC>(root_hash, &p);
+            if std::env::var("VX_DEBUG").is_ok() { eprintln!("k={k} sibs={} hash_eq={} lp_len={} children=({},{}) res={:?}", p.longest_prefix_membership_proof.sibling_proofs.len(), p.longest_prefix_membership_proof.hash_val == honest.longest_prefix_membership_proof.hash_val, p.longest_prefix.label_len, p.longest_prefix_children[0].label.label_len, p.longest_prefix_children[1].label.label_len, vr); }
+            let accepted = vr.is_ok();
             res.push((k, !member && k == deepest_len, accepted));
         }
         Ok((member, res))
